@@ -2,19 +2,23 @@
 //
 // Files with a unique row id in every row (required int64, optional int64,
 // list of int64, dictionary encoded string) are written with small pages, one
-// or several row groups and data pages v1 or v2, and opened with or without the
-// page index, in sync or async read mode.  Histories of operations
+// or several row groups (also of uneven sizes) and data pages v1 or v2,
+// unencrypted and encrypted (both footer modes, footer key and column keys),
+// and opened with or without the page index, in sync or async read mode, with
+// several read buffer sizes.  Histories of operations
 // (ReadPage/ReadRows, SeekToRow, loading the offset index, Reset) are run on
 // ColumnChunk.Pages(), RowGroup.Rows(), parquet.NewReader and
 // parquet.NewGenericReader, and on the column pages and the rows of
-// parquet.MultiRowGroup over all the row groups.  The property predicate is evaluated directly on
+// parquet.MultiRowGroup over all the row groups, flat and nested in fixed and
+// random shapes.  The property predicate is evaluated directly on
 // what the implementation returns (it tracks one row position: after
 // SeekToRow(k) the rows returned must be k, k+1, ... and errors only happen
 // where a fresh sequential reader is at the end), and the per-operation
 // outputs (exact first row and count of every page / batch, io.EOF flags) are
 // compared with the extracted Coq models: the page cursor (Cursor/Model.v), and
 // on top of it the multi-column rowGroupRows over the page layouts of all five
-// columns, multiPages, reader/Reader/GenericReader (Cursor/Multi.v) and, in
+// columns, multiPages, reader/Reader/GenericReader (Cursor/Multi.v), the
+// flattening of nested multi row groups (Cursor/Nested.v) and, in
 // async read mode, asyncPages under schedules drawn by the model
 // (Cursor/AsyncPages.v).
 package main
@@ -1049,6 +1053,10 @@ func c08Request(cs *c08Case, b *c08Built) string {
 		}
 		return "c08.pages " + m + " " + c08Hex(b.layout[cs.RG][cs.Col]) + " " + c08OpsTok(cs.Ops)
 	case "multipages":
+		if cs.Nest != "" {
+			// the flattening of multiRowGroup.init over the nested applications
+			return "c08.nested " + m + " " + cs.Nest + " " + c08ChunksOfCol(b, cs.Col) + " " + c08OpsTok(cs.Ops)
+		}
 		return "c08.mpages " + m + " " + c08ChunksOfCol(b, cs.Col) + " " + c08OpsTok(cs.Ops)
 	case "rows":
 		return "c08.mrows " + m + " " + c08ColsOfRG(b, cs.RG) + " " + c08OpsTok(cs.Ops)
@@ -1211,8 +1219,30 @@ func c08Run(c *core.Ctx, cs *c08Case, bucket string) bool {
 			}
 		}
 	}
-	// the dimensions of the case that the failure does not need are dropped
-	// (the simpler file has the same rows; its page layout is its own)
+	t, kind = c08Simplify(c, t, kind)
+	cl := c08Class(t, kind)
+	c08Reported[cl]++
+	if c08Reported[cl] > 1 {
+		return false
+	}
+	min := c08Shrink(c, t)
+	// the shorter history may fail without a dimension the longer one needed
+	if u, k := c08Simplify(c, min, kind); u != min {
+		if cl2 := c08Class(u, k); cl2 == cl {
+			min = c08Shrink(c, u)
+		} else if c08Reported[cl2] == 0 {
+			c08Reported[cl2]++
+			min = c08Shrink(c, u)
+		}
+	}
+	c08Check(c, min)
+	return false
+}
+
+// c08Simplify drops the dimensions of a failing case that the failure does not
+// need: nesting, encryption, read buffer size, async mode (the simpler file
+// has the same rows; its page layout is its own).
+func c08Simplify(c *core.Ctx, t *c08Case, kind string) (*c08Case, string) {
 	for _, simpler := range []func(u *c08Case) bool{
 		func(u *c08Case) bool { ok := u.Nest != ""; u.Nest = ""; return ok },
 		func(u *c08Case) bool { ok := u.File.Enc != ""; u.File.Enc = ""; return ok },
@@ -1226,14 +1256,7 @@ func c08Run(c *core.Ctx, cs *c08Case, bucket string) bool {
 			}
 		}
 	}
-	cl := c08Class(t, kind)
-	c08Reported[cl]++
-	if c08Reported[cl] > 1 {
-		return false
-	}
-	min := c08Shrink(c, t)
-	c08Check(c, min)
-	return false
+	return t, kind
 }
 
 func c08Shrink(c *core.Ctx, cs *c08Case) *c08Case {
@@ -1405,7 +1428,41 @@ func c08CoqNats(xs []int64) string {
 
 func runC08(c *core.Ctx) {
 	c.Res.Rule = "files of rows (id, optional, list, dictionary string, optional leaf in an optional group; every value identifies its row; the five columns have different page layouts) written with small pages (PageBufferSize 16..96), 1..4 row groups, data pages v1 and v2; also row groups of uneven sizes (Flush), unencrypted and encrypted (encrypted footer / plaintext footer, footer key only / column keys); opened with/without SkipPageIndex, sync/async, ReadBufferSize default/16/64/300/65536. Histories over {ReadPage | ReadRows(n in 1,3,64,1000) | Reader.Read(one row), SeekToRow(k: 0, page and row-group boundaries +-1, N-1, N, N+3, random), load the offset index, Reset}: a corpus (the repaired defects first), ALL histories of length 4 (quick) / 5 (thorough) over a 9..12 letter alphabet on 22-row files, random histories up to length 40 on 300-row files; run on ColumnChunk.Pages (every column), RowGroup.Rows, NewReader (ReadRows and Read), NewGenericReader (Read), and the column pages (multiPages) and rows of MultiRowGroup over all row groups, flat and nested 1..4 levels deep in fixed and random shapes (the outputs must be those of the flat concatenation). Every per-operation output (first row and count of the page/batch, io.EOF) is compared with the extracted model of that layer (page cursor; rowGroupRows over the page layouts of all five columns; multiPages; reader/Reader/GenericReader), a sample also with the position specification, async page histories also with the asyncPages model under model-drawn schedules. A case = (file, open options, reader, history); non-trivial = at least 2 operations; distinct by the JSON of the case."
-	var vm, vmRows, vmReader []string
+	var vm, vmRows, vmReader, vmNested []string
+	// nested multi row groups: the column pages against run_nested_indexed inside coqc
+	addVmNested := func(cs *c08Case) {
+		if cs.Target != "multipages" || cs.Nest == "" || cs.Open.SkipIndex || cs.Open.Async || len(vmNested) >= 60 {
+			return
+		}
+		res, b := c08Exec(cs)
+		if b == nil || res.kind != "" {
+			return
+		}
+		outs, ok := c08CoqOuts(res.outs)
+		if !ok {
+			return
+		}
+		var tree strings.Builder
+		for i := 0; i < len(cs.Nest); i++ {
+			switch ch := cs.Nest[i]; {
+			case ch == '(':
+				tree.WriteString("RGNode [")
+			case ch == ')':
+				tree.WriteString("]")
+			case ch == ',':
+				tree.WriteString("; ")
+			default:
+				j := i
+				for j < len(cs.Nest) && cs.Nest[j] >= '0' && cs.Nest[j] <= '9' {
+					j++
+				}
+				g, _ := strconv.Atoi(cs.Nest[i:j])
+				tree.WriteString("RGLeaf " + c08CoqNats(b.layout[g][cs.Col]))
+				i = j - 1
+			}
+		}
+		vmNested = append(vmNested, fmt.Sprintf("(%s, %s, %s)", tree.String(), c08CoqOps(cs.Ops), outs))
+	}
 	addVmRows := func(cs *c08Case) {
 		if cs.Open.SkipIndex || cs.Open.Async || c08Has(cs.Ops, "g") {
 			return
@@ -1566,6 +1623,7 @@ func runC08(c *core.Ctx) {
 			}
 		}
 	}
+	nVmNested := 0
 	// nested multi row groups: row groups of uneven sizes combined with
 	// MultiRowGroup in every shape of depth 1..3, seeks at every row group
 	// boundary (-1, 0, +1) in ascending and in descending order
@@ -1597,6 +1655,9 @@ func runC08(c *core.Ctx) {
 					for _, h := range [][]string{up, down, around} {
 						cs := &c08Case{File: p, Open: o, Target: target, Col: col % c08NumCols, Nest: nest, Ops: h}
 						c08Run(c, cs, "corpus/nested")
+						if nVmNested++; nVmNested%5 == 0 {
+							addVmNested(cs)
+						}
 					}
 				}
 			}
@@ -1874,7 +1935,7 @@ func runC08(c *core.Ctx) {
 	c.Note("row-range views (row_range.go) have no exported constructor; they are reached only through the merge planner and are not exercised here")
 	c.Note("async read mode: histories are run under the Go scheduler as it comes; the asyncPages model is run under schedules drawn by the oracle (2 per async page history) and must return the same outputs")
 
-	c.Vm("From Coq Require Import List Arith Bool.\nFrom PQ Require Import Cursor.Model Cursor.Multi.\nImport ListNotations.")
+	c.Vm("From Coq Require Import List Arith Bool.\nFrom PQ Require Import Cursor.Model Cursor.Multi Cursor.Nested.\nImport ListNotations.")
 	c.Vm("Definition out_eqb (a b : out) : bool :=\n  match a, b with\n  | Rows f c, Rows f' c' => (f =? f') && (c =? c')\n  | EOF, EOF | SeekOk, SeekOk | OutOfRange, OutOfRange | Done, Done => true\n  | _, _ => false\n  end.")
 	c.Vm("Fixpoint outs_eqb (a b : list out) : bool :=\n  match a, b with\n  | [], [] => true\n  | x :: a', y :: b' => out_eqb x y && outs_eqb a' b'\n  | _, _ => false\n  end.")
 	c.Vm("Definition cases : list (list nat * list op * list out) := [\n  " + strings.Join(vm, ";\n  ") + "].")
@@ -1887,8 +1948,10 @@ func runC08(c *core.Ctx) {
 	c.Vm("Definition xcases : list (list (list chunk) * list xop * list mout) := [\n  " + strings.Join(vmReader, ";\n  ") + "].")
 	c.Vm("Definition rmismatches := filter (fun '(cols, ops, outs) => negb (mouts_eqb (run_mrows_indexed cols ops) outs)) rcases.")
 	c.Vm("Definition xmismatches := filter (fun '(cols, ops, outs) => negb (mouts_eqb (run_reader_indexed cols ops) outs)) xcases.")
-	c.Vm("Definition M := Eval vm_compute in (length cases + length rcases + length xcases, repeat tt (length mismatches + length rmismatches + length xmismatches)).\nPrint M.")
-	c.Res.VmCases = len(vm) + len(vmRows) + len(vmReader)
+	c.Vm("Definition ncases : list (rgtree * list op * list out) := [\n  " + strings.Join(vmNested, ";\n  ") + "].")
+	c.Vm("Definition nmismatches := filter (fun '(t, ops, outs) => negb (outs_eqb (run_nested_indexed t ops) outs)) ncases.")
+	c.Vm("Definition M := Eval vm_compute in (length cases + length rcases + length xcases + length ncases, repeat tt (length mismatches + length rmismatches + length xmismatches + length nmismatches)).\nPrint M.")
+	c.Res.VmCases = len(vm) + len(vmRows) + len(vmReader) + len(vmNested)
 }
 
 func replayC08(c *core.Ctx, raw json.RawMessage) {
